@@ -35,7 +35,13 @@ func (w *C16) Run(t *rt.Tape, trace bool, seed uint64) *core.Result {
 	}
 	res.Class = "streaming ot=" + twopc.OTNames[kind]
 	h := sha256.New()
+	rt.AllocPeak = 0
 	ref := Run(t, c, kind, pipe, false)
+	// The corrupted sessions run on a machine with 8 times the memory the clean
+	// session needed per request: a corrupted count then ends in an allocation
+	// failure (a crashed party) instead of hours of work on 2^24 phantom wires.
+	defer func(old uint64) { rt.AllocLimit = old }(rt.AllocLimit)
+	rt.AllocLimit = max(256<<10, 8*rt.AllocPeak)
 	core.Finish(res, ref.RR)
 	h.Write([]byte(ref.RR.Hash))
 	if res.Inconclusive != "" {
@@ -45,11 +51,10 @@ func (w *C16) Run(t *rt.Tape, trace bool, seed uint64) *core.Result {
 		res.Discard = true // a broken clean session is C05's business
 		return res
 	}
-	lenGE, lenEG := len(ref.GE), len(ref.EG)
 	trials := 4 + t.Choose(rt.SGen, 8)
 	// window mode: consecutive byte offsets of one direction, one mask - dense
 	// local enumeration instead of scattered samples
-	win := twopc.NewWindow(t, lenGE, lenEG)
+	win := twopc.NewWindow(t, ref.GE, ref.EG)
 	if win != nil {
 		trials = win.Trials
 		res.Reach["window-enumerations"]++
@@ -59,7 +64,7 @@ func (w *C16) Run(t *rt.Tape, trace bool, seed uint64) *core.Result {
 		Faults []string
 	}
 	for k := 0; k < trials; k++ {
-		ge, eg, desc := twopc.DrawFaults(t, lenGE, lenEG)
+		ge, eg, desc := twopc.DrawFaults(t, ref.GE, ref.EG)
 		if win != nil {
 			ge, eg, desc = win.Fault(k)
 		}
@@ -67,7 +72,7 @@ func (w *C16) Run(t *rt.Tape, trace bool, seed uint64) *core.Result {
 		simnet.Reset()
 		p := pipe
 		p.AB.Faults, p.BA.Faults = ge, eg
-		o := Run(t, c, kind, p, trace)
+		o := RunAbort(t, c, kind, p, trace, true)
 		h.Write([]byte(o.RR.Hash))
 		res.Steps += o.RR.Steps
 		res.Switches += o.RR.Switches
@@ -76,7 +81,7 @@ func (w *C16) Run(t *rt.Tape, trace bool, seed uint64) *core.Result {
 			res.Trace = append(res.Trace, o.RR.Trace...)
 		}
 		for kd, n := range o.EA.Stats.FaultsFired {
-			res.Faults[[]string{"flip", "burst", "close", "reset"}[kd]] += n
+			res.Faults[[]string{"flip", "burst", "close", "reset", "write-error"}[kd]] += n
 		}
 		if o.RR.Outcome == rt.StepCap {
 			res.Inconclusive = "step cap reached"
@@ -88,6 +93,8 @@ func (w *C16) Run(t *rt.Tape, trace bool, seed uint64) *core.Result {
 			res.Reach["outcome.party-crashed"]++
 		case !o.GDone:
 			res.Reach["outcome.session-stalled"]++
+		case o.GErr != nil && o.Aborted:
+			res.Reach["outcome.session-stalled-then-aborted:garbler-error"]++
 		case o.GErr != nil:
 			res.Reach["outcome.garbler-error"]++
 		case gen.EqualOutputs(o.GOut, c.Want):
